@@ -766,7 +766,7 @@ def families():
     for c in RN:
         pk = byname[c['sk']]
         for m, mn in ((0, 'fn'), (1, 'obj')):
-            t = c['tier'] if m == 0 else ('quick' if c['name'] in ('r_mx_soa_sfx_long', 'r_optmid_sfx_long') else ('thorough' if c['tier'] == 'thorough' else 'rotate'))
+            t = c['tier'] if m == 0 else 'thorough'
             fam.append(dict(name="rn_%s_%s" % (mn, c['name']), body="p_rename::rename::<_, rn_gen::%s, %d>" % (c['type'], m),
                             props=["C07"] if m == 0 else ["C07", "C08"], tier=t, est=200, timeout=1500 if t != 'thorough' else 3000, mem_gb=40,
                             bound="%s: %s | source %s target %s %s | skeleton %s (%d bytes): %s; label characters concrete, all other payload symbolic" % (
@@ -806,10 +806,8 @@ def families():
         for (nn, nt), tier in zip(NAMES, tiers):
             mut("name_%s_%s_%s%d" % (nn, sk, SECN[sec], idx), "p_mutate::set_name::<_, skel_gen::%s, p_mutate::%s, %d, %d>" % (camel(sk), nt, sec, idx), sk, ["C08", "C09"], tier,
                 "set_raw_name(%s new name, label bytes symbolic within the parser's alphabet) on record %d of section %s: owner replaced, nothing else; cursor still designates the record; view == fresh parse" % (nn, idx, SECN[sec]))
-    mut("name_anybytes_r_a_aaaa_an0", "p_mutate::set_name::<_, skel_gen::SkRAAaaa, p_mutate::Nm<2, 0, true>, 1, 0>", 'r_a_aaaa', ["C08"], 'quick',
-        "set_raw_name with a 2-byte label of ANY byte values on answer 0: a successful call must leave bytes the parser accepts")
-    for bad, bn in ((0, 'label64'), (1, 'len256'), (2, 'truncated'), (3, 'pointer'), (4, 'empty')):
-        mut("namebad_%s_r_a_aaaa_an0" % bn, "p_mutate::set_name_bad::<_, skel_gen::SkRAAaaa, 1, 0, %d>" % bad, 'r_a_aaaa', ["C10"], 'quick' if bad in (0, 2, 3) else 'rotate',
+    for bad, bn in ((0, 'label64'), (1, 'len256'), (2, 'truncated'), (3, 'pointer'), (4, 'empty'), (5, 'dot'), (6, 'backslash'), (7, 'ctrl1f'), (8, 'del7f'), (9, 'nul')):
+        mut("namebad_%s_r_a_aaaa_an0" % bn, "p_mutate::set_name_bad::<_, skel_gen::SkRAAaaa, 1, 0, %d>" % bad, 'r_a_aaaa', ["C10", "C08"] if bad >= 5 else ["C10"], 'quick' if bad in (0, 3, 5, 7) else 'rotate',
             "set_raw_name with an ill-formed name (%s) on answer 0: refused; same decoded message; view == fresh parse (label characters concrete)" % bn)
     for sk, sec, idx, tier in (('r_a_aaaa', 1, 0, 'quick'), ('r_a_aaaa', 1, 1, 'rotate'), ('r_three_a', 1, 1, 'quick'), ('r_all_sections', 1, 0, 'quick'),
                                ('r_all_sections', 2, 0, 'rotate'), ('r_all_sections', 3, 0, 'rotate'), ('r_optmid', 3, 0, 'quick'), ('r_optmid', 3, 1, 'rotate'),
@@ -843,6 +841,25 @@ def families():
             mut("delwalk_%s_%s_m%d" % (sk, SECN[sec], m), "p_mutate::delete_walk::<_, skel_gen::%s, %d, %d>" % (camel(sk), sec, m), sk, ["C11", "C08"] if m in qmasks else ["C11"],
                 'quick' if m in qmasks else 'rotate',
                 "walk section %s deleting the records selected by mask %s (documented protocol: delete, second delete must be void, next): terminates within n(n+1)+2 steps, survivors exact and in order; view == fresh parse" % (SECN[sec], bin(m)), est=300, timeout=1800)
+
+    for sk in ('r_a_aaaa', 'r_mx_soa', 'r_optmid'):
+        mut("renobj_%s" % sk, "p_mutate::rename_view::<_, skel_gen::%s>" % camel(sk), sk, ["C08"], 'rotate',
+            "ParsedPacket::rename_with_raw_names(suffix = last label of the question name -> 'new.tg'): the object's view equals a fresh parse of its bytes (label characters concrete)")
+    QUICK_MUT = {
+        'ttl_r_all_sections_ar0', 'ip_r_a_aaaa_an0', 'ip_r_a_aaaa_an1',
+        'name_short_r_all_sections_ar0', 'name_long_r_a_aaaa_an0', 'name_long_r_optmid_ar0', 'name_short_r_a_aaaa_q0', 'name_equal_r_three_a_an1',
+        'namebad_label64_r_a_aaaa_an0', 'namebad_pointer_r_a_aaaa_an0', 'namebad_dot_r_a_aaaa_an0', 'namebad_ctrl1f_r_a_aaaa_an0',
+        'del_r_a_aaaa_an0', 'del_r_optmid_ar0', 'del_r_all_sections_an0',
+        'ins_r_a_aaaa_an', 'ins_r_all_sections_ns', 'ins_second_question_r_a_aaaa',
+        'cacheq_q_plain', 'itunc_r_a_aaaa_an1', 'hdrops_r_all_sections', 'recompute_r_all_sections', 'renobj_r_a_aaaa',
+        'delwalk_r_three_a_an_m5', 'delwalk_r_optmid_ar_m1', 'delwalk_r_a_aaaa_an_m3',
+    }
+    MUT_PREFIX = ('ttl_', 'ip_', 'name_', 'namebad_', 'del_', 'ins_', 'cacheq_', 'itunc_', 'hdrops_', 'recompute_', 'delwalk_', 'renobj_')
+    for f in fam:
+        if f['name'].startswith(MUT_PREFIX):
+            f['tier'] = 'quick' if f['name'] in QUICK_MUT else 'rotate'
+    missing = QUICK_MUT - {f['name'] for f in fam}
+    assert not missing, missing
 
     for p in SK:
         if 'nocomp' not in p.tags:
